@@ -288,6 +288,7 @@ class Fate:
 def classify_result(body, call, _depth=0, _local=None):
     """What happens to the Result produced by `call` (or held in `_local`)."""
     fate = Fate()
+    _switches = []
     start = call.dest[0] if _local is None else _local
     if _local is None and call.dest[1]:
         fate.kinds.add('STORED')
@@ -309,6 +310,8 @@ def classify_result(body, call, _depth=0, _local=None):
             if k == 'stmt':
                 s = what[1]
                 rv = s['rv']
+                if rv['k'] == 'disc' and (rv['p'][1] and rv['p'][1] != ['*']):
+                    continue       # discriminant of a payload (nested match), not of the Result itself
                 if rv['k'] == 'disc':
                     # match / if let on the result: find switch on the discriminant
                     nontrivial = True
@@ -318,13 +321,15 @@ def classify_result(body, call, _depth=0, _local=None):
                         if w2[0] == 'switch':
                             t = w2[1]
                             vals, tg = t['vals'], t['tgts']
+                            ea, oa = [], []
                             for v, tgt in zip(vals, tg):
-                                (fate.err_arm_blocks if v == 1 else fate.ok_arm_blocks).append(tgt)
+                                (ea if v == 1 else oa).append(tgt)
                             other = tg[-1]
                             if 1 not in vals and 0 in vals:
-                                fate.err_arm_blocks.append(other)
+                                ea.append(other)
                             if 0 not in vals and 1 in vals:
-                                fate.ok_arm_blocks.append(other)
+                                oa.append(other)
+                            _switches.append((b2, ea, oa))
                 elif rv['k'] in ('use', 'ref', 'cast'):
                     # whole-value move/copy/ref, or a read of a field (payload extraction)
                     reads = [p for p in rvalue_places(rv) if p[0] == l]
@@ -345,7 +350,8 @@ def classify_result(body, call, _depth=0, _local=None):
                 if c.matches(TRY_BRANCH):
                     fate.kinds.add('PROPAGATED')
                 elif c.matches(DISCARD_METHODS):
-                    fate.kinds.add('DISCARDED')
+                    byref = (c.t.get('argtys') or [''])[0].startswith('&')
+                    fate.kinds.add('INSPECTED' if byref else 'DISCARDED')
                     fate.notes.append('%s at %s' % (c.path.split('::')[-1], c.where()))
                 elif c.matches(PANIC_METHODS):
                     fate.kinds.add('PANICS')
@@ -377,6 +383,15 @@ def classify_result(body, call, _depth=0, _local=None):
         if not nontrivial and l == start:
             fate.kinds.add('DISCARDED')
             fate.notes.append('dropped unread')
+    # keep the outermost tests only: later switches on the same discriminant (drop flags of the
+    # drop elaboration, repeated matches) are dominated by the first one and decide nothing new
+    for (sb, ea, oa) in _switches:
+        if any(o != sb and body.dominates(o, sb) for (o, _, _) in _switches):
+            continue
+        fate.err_arm_blocks += ea
+        fate.ok_arm_blocks += oa
+    if 'INSPECTED' in fate.kinds and not (fate.kinds & {'PROPAGATED', 'RETURNED', 'MATCHED', 'STORED', 'PASSED', 'PANICS'}):
+        fate.kinds.add('DISCARDED')
     # logged? any Err arm that reaches a logging call before leaving
     for eb in fate.err_arm_blocks:
         if arm_reaches_call(body, eb, LOG_CALL):
@@ -861,3 +876,85 @@ def base_named_local(body, operand, max_hops=8):
         else:
             return None
     return None
+
+
+# ---------------------------------------------------------------------------
+# Path rules that respect correlated tests of one Result value
+
+def result_tests(body, call):
+    """All branches that test the Result produced by `call` (match / if let / `?` / is_ok / is_err,
+    also on copies and references): {switch_bb: {'ok': target, 'err': target}}"""
+    tests = {}
+    holders = forward_locals(body, call.dest[0], through_calls=lambda c, ai: ai == 0 and c.matches(PASS_METHODS) and is_result_ty(c.dty))
+
+    def add_disc_switch(dl, ok_val, err_val):
+        for (b2, i2, w2) in body.operand_uses(dl):
+            if w2[0] == 'switch':
+                t = w2[1]
+                m = dict(zip(t['vals'], t['tgts']))
+                other = t['tgts'][-1]
+                ok_t = m.get(ok_val, other)
+                err_t = m.get(err_val, other)
+                if body.blocks[ok_t]['term']['k'] == 'unreach' or body.blocks[err_t]['term']['k'] == 'unreach':
+                    continue
+                tests[b2] = {'ok': ok_t, 'err': err_t}
+    for l in holders:
+        for (bb, idx, what) in body.operand_uses(l):
+            if what[0] == 'stmt' and what[1]['rv']['k'] == 'disc' and what[1]['rv']['p'][0] == l and (not what[1]['rv']['p'][1] or what[1]['rv']['p'][1] == ['*']):
+                add_disc_switch(what[1]['p'][0], 0, 1)
+            elif what[0] == 'callarg':
+                c = what[1]
+                if c.matches(TRY_BRANCH):
+                    for (b3, i3, w3) in body.operand_uses(c.dest[0]):
+                        if w3[0] == 'stmt' and w3[1]['rv']['k'] == 'disc':
+                            add_disc_switch(w3[1]['p'][0], 0, 1)
+                elif c.matches(r'Result(::)?<.*>::(is_ok|is_err)$'):
+                    neg = c.path.endswith('is_err')
+                    for (b3, i3, w3) in body.operand_uses(c.dest[0]):
+                        if w3[0] == 'switch':
+                            tt, ft = switch_targets_bool(w3[1])
+                            if tt is None:
+                                continue
+                            tests[b3] = {'ok': ft if neg else tt, 'err': tt if neg else ft}
+    return tests
+
+
+def reachable_state(body, start, tests, state, avoid=()):
+    """blocks reachable from start when every test in `tests` takes its `state` ('ok'/'err') edge"""
+    avoid = set(avoid)
+    seen = set()
+    st = [start] if start not in avoid else []
+    while st:
+        x = st.pop()
+        if x in seen:
+            continue
+        seen.add(x)
+        succ = [tests[x][state]] if x in tests else body.succs(x)
+        for s_ in succ:
+            if s_ not in seen and s_ not in avoid:
+                st.append(s_)
+    return seen
+
+
+def must_pass_state(body, start, tests, state, via):
+    """every path from start to a return, with the tests resolved to `state`, passes a block in `via`"""
+    via = set(via)
+    if start in via:
+        return True, None
+    r = reachable_state(body, start, tests, state, avoid=via)
+    rets = set(body.return_blocks()) & r
+    return (not rets), (sorted(rets)[0] if rets else None)
+
+
+def return_variants_state(body, start, tests, state):
+    out = set()
+    for b in reachable_state(body, start, tests, state):
+        for s_ in body.blocks[b]['stmts']:
+            if s_['p'][0] == 0 and not s_['p'][1]:
+                rv = s_['rv']
+                if rv['k'] == 'agg' and rv.get('ak') == 'adt':
+                    out.add(rv['variant'])
+        c = body.call_at(b)
+        if c is not None and c.dest[0] == 0 and not c.dest[1] and c.matches(FROM_RESIDUAL):
+            out.add('Err')
+    return out
